@@ -23,6 +23,7 @@ struct Variant {
   int maxDepth;
   std::vector<int> dts;
   int ownDelay = -1;  // plugin-level post_action_delay of the first action (requested through the invoking ruleset, like kill plugins do)
+  bool ownCgroup = false;  // the LAST action names its own cgroup ("elsewhere"): it must be handed that one, not the matched cgroup
 };
 const char* kTag = "user.verif_rc";
 
@@ -59,6 +60,11 @@ struct C11 : vr::Driver {
     // the stopping action carries its own post_action_delay: it must pause the INSTANCE that ran it
     vs.push_back({"plugin-delay-longer", 2, 1, 0, false, 2, 2, th ? 7 : 4, {1, 2}, 2});
     vs.push_back({"plugin-delay-shorter", 2, 1, 3, false, 2, 2, th ? 7 : 4, {1, 2}, 0});
+    {
+      Variant v{"own-cgroup-action", 2, 2, 0, false, 1, 2, th ? 5 : 3, {1}};
+      v.ownCgroup = true;
+      vs.push_back(v);
+    }
   }
   size_t count() override { return vs.size(); }
   std::string describe(size_t i) override {
@@ -81,6 +87,10 @@ struct C11 : vr::Driver {
     rs.groupNames = {"g0"};
     rs.groups = {{"d0"}};
     for (int a = 0; a < v.nActions; a++) rs.actions.push_back({"a" + std::to_string(a)});
+    if (v.ownCgroup) {
+      auto& a = rs.actions.back();
+      a.json = "{\"name\":\"verif_scripted\",\"args\":{\"id\":\"" + a.id + "\",\"cgroup\":\"elsewhere\"}}";
+    }
     if (v.ownDelay >= 0) {
       rs.actions[0].ownDelay = v.ownDelay;
       rs.actions[0].json = "{\"name\":\"verif_scripted\",\"args\":{\"id\":\"a0\",\"post_action_delay\":\"" + std::to_string(v.ownDelay) + "\"}}";
@@ -179,9 +189,18 @@ struct C11 : vr::Driver {
     emc::Cfg cfg = cfgFor(v);
     // instance token -> cgroup: from detector run calls (ruleset cgroup in context) and action init records
     std::map<std::string, std::string> cgOf;
+    std::string lastInitCg;  // plugins of one per-cgroup instance are created together, the actions in chain order
     for (auto& c : sim::calls) {
       if (templateInst.count(c.instance)) continue;
-      if (c.method == "init" && !c.cgroupArg.empty()) cgOf[c.instance] = "/" + c.cgroupArg;
+      if (c.method == "init" && !c.cgroupArg.empty()) {
+        if (v.ownCgroup && c.cgroupArg == "elsewhere") {
+          // the action that names its own cgroup belongs to the instance whose other plugins were just created
+          if (!lastInitCg.empty()) cgOf[c.instance] = lastInitCg;
+        } else {
+          cgOf[c.instance] = "/" + c.cgroupArg;
+          lastInitCg = "/" + c.cgroupArg;
+        }
+      }
       if (c.method == "run" && c.id[0] == 'd' && c.rulesetCgroup != "-") cgOf.emplace(c.instance, c.rulesetCgroup);
     }
     std::map<std::string, std::unique_ptr<emc::Model>> models;       // live instance models by cgroup
@@ -266,7 +285,13 @@ struct C11 : vr::Driver {
             ex.verdict = "context-cgroup: detector of " + cg + " ran with ruleset cgroup " + c.rulesetCgroup;
             return ex;
           }
-          if (c.id[0] == 'a' && (c.target != cg || "/" + c.cgroupArg != cg)) {
+          // an action that names its own cgroup keeps it; every other action is handed the matched cgroup
+          bool namesOwn = v.ownCgroup && c.id == "a" + std::to_string(v.nActions - 1);
+          if (namesOwn && c.cgroupArg != "elsewhere") {
+            ex.verdict = "action-target: action " + c.id + " of " + cg + " is configured with cgroup=elsewhere but was initialised with cgroup=" + c.cgroupArg;
+            return ex;
+          }
+          if (c.id[0] == 'a' && (c.target != cg || (!namesOwn && "/" + c.cgroupArg != cg))) {
             ex.verdict = "action-target: action of " + cg + " ran with target " + c.target + " cgroup arg " + c.cgroupArg;
             return ex;
           }
